@@ -128,6 +128,16 @@ func JunkValue(class string) (any, error) {
 		return (*WrongStruct)(nil), nil
 	case "nilre":
 		return (*regexp.Regexp)(nil), nil
+	case "arr_int2": // fixed-size arrays: values no decoder produces, and legal map keys
+		return [2]int64{1, 2}, nil
+	case "arr_str2":
+		return [2]string{"a", "b"}, nil
+	case "arr0":
+		return [0]int{}, nil
+	case "arr_named":
+		return catalog.NamedArr{"a", "b"}, nil
+	case "map_arrkey":
+		return map[[2]int64]string{{1, 2}: "a"}, nil
 	case "nil_wide": // a typed nil pointer of the catalogue's own mapped pointer types
 		return (*catalog.Wide)(nil), nil
 	case "nil_sub":
@@ -545,7 +555,7 @@ func FromGo(x any, e *Embedding) (*Value, error) {
 		}
 		return &Value{K: "re", S: sv.S}, nil
 	}
-	if t.PkgPath() != "" && t.Kind() != reflect.Struct {
+	if t.PkgPath() != "" && t.Kind() != reflect.Struct && t.Kind() != reflect.Array {
 		return nil, inexp("value of defined type %s", t)
 	}
 	switch t.Kind() {
@@ -602,6 +612,16 @@ func FromGo(x any, e *Embedding) (*Value, error) {
 		return out, nil
 	}
 	switch x.(type) {
+	case [2]int64:
+		return &Value{K: "junk", S: "arr_int2"}, nil
+	case [2]string:
+		return &Value{K: "junk", S: "arr_str2"}, nil
+	case [0]int:
+		return &Value{K: "junk", S: "arr0"}, nil
+	case catalog.NamedArr:
+		return &Value{K: "junk", S: "arr_named"}, nil
+	case map[[2]int64]string:
+		return &Value{K: "junk", S: "map_arrkey"}, nil
 	case cbor.Tag:
 		return &Value{K: "junk", S: "tag"}, nil
 	case big.Int, *big.Int:
